@@ -13,7 +13,7 @@ Ltac find_in :=
   end.
 
 Ltac cyc s :=
-  destruct s as [cf cl src str ng rd dh rh sst srt sct srun ir pst prt pct hud hua hof];
+  destruct s as [cf cl src str ng rd dh rh sst srt sct srun ir pst prt pct hud hua hof sb];
   cbn in *; subst; unfold od_static, od_pub in *.
 
 (* runOnDemand publisher: first demand starts the command, arms the start timer and holds the request *)
